@@ -13,6 +13,7 @@ EXPLANATION = (
     "(R-C12-levels) in each matches(): `false` for an exhausted topic only behind a test of the filter level against \"#\" (a/# matches a); `true` after the last filter level only behind a poll of the topic iterator; "
     "every loop iteration consumes one topic level and continues only via `level == \"+\"` or a comparison of the two levels. "
     "(R-C12-filter) each valid_filter() tests both the non-last levels and the last level for '+' and for '#', and a '#' in a non-last level leads only to false. "
+    "R-C12-siblings also covers the broker's cached matcher (DataLog::matches / next_native_offset): a new filter reaches every cached topic protocol::matches says it matches (shared with R-C01-cache). "
     "NOT decided: conformance of matching with the MQTT rules for all string pairs; agreement of the differently written rumqttd valid_filter with the client copies.")
 
 ASSUMPTIONS = [
